@@ -82,9 +82,8 @@ func Auto(w http.ResponseWriter, r *http.Request, obj any) (err error) {
 			err = JSON(w, obj)
 			handled = true
 			break
-		case httpctype.MIMEHTML:
-			handled = true
-			break
+		// Notice: there is no renderer for httpctype.MIMEHTML here. Don't report it as
+		// handled without writing anything, try the next accepted type.
 		case httpctype.MIMEText:
 			err = responseText(w, obj)
 			handled = true
